@@ -64,7 +64,8 @@ UNDER_TEST = [
     # no initial attitude given: the first row comes from the class's own initialiser (for ROLEQ: OLEQ, which draws from NumPy's RNG)
     # (ROLEQ's start depends on where the global RNG stands when the object is built: only the exact repeat under the same seed and the
     # fresh-interpreter run are comparable, not other interleavings)
-    (C("ROLEQ", "MARG", frame="NED", gain="high"), {"magnetic_ref": 60.0, "__repeat_only__": True}, False), (C("EKF", "MARG", frame="NED", gain="high"), {"magnetic_ref": 60.0}, False),
+    (C("ROLEQ", "MARG", frame="NED", gain="high"), {"magnetic_ref": 60.0, "__repeat_only__": True}, False, (C("ROLEQ", "MARG", frame="ENU", gain="low"), {"magnetic_ref": 55.0}, True)),
+    (C("EKF", "MARG", frame="NED", gain="high"), {"magnetic_ref": 60.0}, False),
     (C("Mahony", "MARG", gain="high"), {}, False), (C("AQUA", "MARG", mode="fixed", gain="high"), {}, False),
 ]
 
@@ -149,6 +150,21 @@ def replay_behaviours(args):
             t.fail("C06|%s|Batch-raises-%s" % (cname, o[1]), {"err": o[2]})
         elif o[1] != fresh:
             t.fail("C06|%s|depends-on-what-ran-before-in-the-process" % cname, {"other": name_of(other[0]), "here": o[1][-1], "fresh_interpreter": fresh[-1]})
+
+    if extra.get("__repeat_only__") and other[2]:
+        # the one estimator that draws from NumPy's global RNG, under ONE seed: an instance of another configuration that was GIVEN its
+        # initial attitude (and so has no use for random numbers) runs first -- the draws this configuration sees are the same
+        t.calls += 2
+        g_, a_, m_ = data(SOLO_IDS)
+
+        def seeded(with_other):
+            np.random.seed(24680)
+            if with_other:
+                FL.batch(other[0], g_, a_, m_, q0=Q0, extra=split_extra(other[1])[1])
+            return np.asarray(FL.batch(real, g_, a_, m_, extra=split_extra(extra)[1])[1], dtype=float)
+        o1, o2 = core.outcome(lambda: seeded(False)), core.outcome(lambda: seeded(True))
+        if o1[0] == "ok" and o2[0] == "ok" and not np.array_equal(o1[1], o2[1]):
+            t.fail("C06|%s|another-instance-consumes-the-global-random-stream" % cname, {"other": name_of(other[0]), "alone": o1[1][0], "after_other": o2[1][0]})
 
     def conc(model_cfg):
         # the model's two configurations: the Madgwick one stands for the class under test, the other for a
